@@ -77,7 +77,7 @@ func (fr *fixedRule) initialise(conf configs.PlacementRule) error {
 	fr.create = conf.Create
 	fr.filter = newFilter(conf.Filter)
 	// if we have a fully qualified queue name already we should not have a parent
-	fr.qualified = strings.HasPrefix(fr.queue, configs.RootQueue)
+	fr.qualified = fr.queue == configs.RootQueue || strings.HasPrefix(fr.queue, configs.RootQueue+configs.DOT)
 	if fr.qualified && conf.Parent != nil {
 		return fmt.Errorf("cannot have a fixed queue rule with qualified queue getName and a parent rule: %v", conf)
 	}
